@@ -230,6 +230,9 @@ func (i *vpIdP) document(r *http.Request) (string, interface{}) {
 
 func (i *vpIdP) mutated(name string, tree interface{}) (interface{}, *vpMutation) {
 	m := i.mut
+	if m != nil && m.doc == "bothtokens" && (name == "idtoken" || name == "accesstoken") && m.raw == nil && m.code == 0 {
+		return vpReplace(tree, m.at, m.with), m // the same claim wrong in the ID token AND the access token
+	}
 	if m == nil || m.doc != name || m.raw != nil || m.code != 0 {
 		return tree, nil
 	}
@@ -485,6 +488,9 @@ func driveProviders(t *testing.T, out *vEmitter) {
 			idp.mu.Unlock()
 			// the tokens a stored session carries are documents too
 			reads[c.name]["idtoken"], reads[c.name]["accesstoken"] = true, true
+			if c.name == "Redeem" && reads[c.name]["token"] {
+				reads[c.name]["bothtokens"] = true
+			}
 			out.Obs("well-formed/"+pv.name+"/"+c.name, cerr == nil, vL(vS(pv.name), vS(c.name), vBool(cerr == nil)))
 		}
 		out.Stat("providers", 1)
@@ -502,6 +508,8 @@ func driveProviders(t *testing.T, out *vEmitter) {
 				d := d
 				var tree interface{}
 				switch d {
+				case "bothtokens":
+					tree = interface{}(map[string]interface{}{"iss": idp.issuer, "aud": "client-id", "exp": time.Now().Unix() + 3600})
 				case "idtoken", "accesstoken":
 					tree = interface{}(idp.claims(d))
 				default:
@@ -522,7 +530,7 @@ func driveProviders(t *testing.T, out *vEmitter) {
 						}
 					}
 				}
-				if d != "idtoken" && d != "accesstoken" {
+				if d != "idtoken" && d != "accesstoken" && d != "bothtokens" {
 					for _, raw := range []string{"", "{", `{"access_token":`, "null", "[]", "[null]", "0", `"x"`, "<html>", `{"a":` + strings.Repeat("[", 3000) + strings.Repeat("]", 3000) + "}"} {
 						raw := raw
 						muts = append(muts, &vpMutation{doc: d, raw: &raw})
@@ -540,7 +548,7 @@ func driveProviders(t *testing.T, out *vEmitter) {
 				for k := range muts {
 					m, lbl := muts[k], labels[k]
 					dst := &jobs
-					if vpCorpus[pv.name+"/"+c.name+"/"+d+lbl] || (c.name == "Redeem" && m.code != 0) {
+					if vpCorpus[pv.name+"/"+c.name+"/"+d+lbl] || (c.name == "Redeem" && (m.code != 0 || d == "bothtokens")) {
 						dst = &first // minimised earlier failures, and every error status at every endpoint a login reads, run on every run
 					}
 					*dst = append(*dst, func() {
@@ -569,6 +577,11 @@ func driveProviders(t *testing.T, out *vEmitter) {
 						if d == "token" && sess && (m.code != 0 || (m.raw != nil && vpNotJSON[*m.raw])) {
 							out.Violation("providers/"+pv.name+"/"+c.name+"/session-from-failed-token-response", "a session came out of a failed token response",
 								map[string]interface{}{"provider": pv.name, "call": c.name, "position": lbl})
+						}
+						// providers that verify tokens: issuer, audience or expiry wrong in BOTH tokens leaves nothing verified to build on
+						if d == "bothtokens" && sess && vpVerifying[pv.name] && len(m.at) == 1 && m.raw == nil && m.code == 0 {
+							out.Violation("providers/"+pv.name+"/Redeem/session-from-unverified-tokens", "a login completed although neither the ID token nor the access token verifies",
+								map[string]interface{}{"provider": pv.name, "claim_wrong_in_both_tokens": lbl})
 						}
 						// an error status at ANY endpoint a login reads gives no session, except where the lookup is documented as
 						// best-effort (vpTolerated)
@@ -621,6 +634,10 @@ var vpTolerated = map[string]bool{"oidc/keys": true, "oidc-profile-claims/keys":
 	// GitLab adds "project:<name>" groups from the project lookups; a failed lookup adds none (logged), and the
 	// allowed-groups authorisation that follows then refuses a user who needed that project
 	"gitlab/gitlab-project": true}
+
+// providers whose login verifies the tokens it receives against the configured issuer, audience and key set
+var vpVerifying = map[string]bool{"oidc": true, "oidc-profile-claims": true, "keycloak-oidc": true, "adfs": true, "azure": true, "azure-other-mails": true,
+	"entra-id": true, "gitlab": true}
 
 var vpNotJSON = map[string]bool{"": true, "{": true, `{"access_token":`: true, "<html>": true}
 
